@@ -107,6 +107,8 @@ pub fn tok_eq(impl_t: &str, model_t: &str, m: Mode) -> bool {
         return match mt {
             MTok::Null => false,
             MTok::Degen => v.is_infinite(),
+            // an infinite implementation value against the model's stand-in for it (|x| >= 2^1100 parses as inf)
+            MTok::Val(x) if x.is_infinite() => v.is_infinite() && (v > 0.) == (x > 0.),
             MTok::Val(x) => v.is_finite() && close_f(v, x, m.rel, m.floor),
             MTok::Root(s, q) => {
                 // either the square matches and the sign is right, or the value itself is within the
